@@ -20,7 +20,7 @@ OPS = ("rfft", "ifft", "parseval", "fftconvolve", "correlate", "mspec")
 
 
 def REQUIRED(tier):
-    return [f"op:{o}" for o in OPS] + ["len:odd_good_size", "len:prime", "len:power_of_two", "direct_dft_checks", "op:rfft_after_longer"]
+    return [f"op:{o}" for o in OPS] + ["len:odd_good_size", "len:prime", "len:power_of_two", "direct_dft_checks", "op:rfft_after_longer", "class:max_zero", "input_unchanged_checks"]
 
 
 def EXHAUSTIVE(tier):
@@ -47,6 +47,10 @@ def _data(rng, n, cls):
         x[0] = 1.0
         x[-1] += 2.0
         return x
+    if cls == "max_zero":    # largest sample exactly 0 with negative samples around it (a dip on a zero baseline, data minus its maximum)
+        x = rng.normal(size=n).astype(np.float32)
+        x = x - x.max() if n > 1 and rng.random() < 0.5 else -np.eye(1, n, int(rng.integers(0, n)), dtype=np.float32).ravel() * np.float32(2.5)
+        return x.astype(np.float32)
     if cls == "impulse_k":   # a single unit impulse at a small odd index: bins with |re| == |im| exactly
         x = np.zeros(n, dtype=np.float32)
         x[min(n - 1, int(rng.choice([1, 3])))] = 1.0
@@ -80,9 +84,10 @@ def run_case(case, ctx):
 
     for n in case["ns"]:
         rng = np.random.default_rng([case["seed"], n])
-        classes = ("normal", "constant", "impulse", "impulse_k", "dynrange") if not case.get("big") else ("normal",)
+        classes = ("normal", "constant", "impulse", "impulse_k", "dynrange", "max_zero") if not case.get("big") else ("normal",)
         for cls in classes:
             x = _data(rng, n, cls)
+            ctx.count(f"class:{cls}")
             x64 = x.astype(np.float64)
             norm = float(np.linalg.norm(x64)) or 1.0
             one = {"ns": [n], "seed": case["seed"], "cls": cls}
@@ -158,7 +163,10 @@ def run_case(case, ctx):
             ms_ = sorted({1, 2, 3, max(1, n // 2), n}) if not case.get("big") else [int(rng.integers(1, 200))]
             for m in ms_:
                 k = rng.normal(size=m).astype(np.float32) if cls != "impulse" else np.eye(1, m, m - 1, dtype=np.float32).ravel()
+                if cls == "max_zero" and m % 2:
+                    k = (k - k.max()).astype(np.float32) if m > 1 else np.array([-1.5], dtype=np.float32)
                 k64 = k.astype(np.float64)
+                kkeep = k.copy()
                 onem = dict(one, m=m)
                 ctx.evaluated(); ctx.count("op:fftconvolve")
                 try:
@@ -183,6 +191,10 @@ def run_case(case, ctx):
                         ctx.violation(f"correlate-values{':lags-reversed' if rev else ''}", f"n={n} m={m} {cls}: correlation differs from sum_j x[j+lag]*y[j], lag=-(m-1)..n-1", onem)
                 except Exception as exc:  # noqa: BLE001
                     ctx.violation(f"correlate-raised:{type(exc).__name__}@{exc_site(exc)}", f"n={n} m={m}: {fmt_exc(exc)}", onem)
+                ctx.count("input_unchanged_checks")
+                if not (np.array_equal(k, kkeep) and np.array_equal(x.astype(np.float64), x64) and np.array_equal(np.asarray(ts.data, dtype=np.float64), x64)):
+                    ctx.violation("input-modified", f"n={n} m={m} {cls}: rfft/ifft/fftconvolve/correlate changed an array the caller holds", onem)
+                    break
                 if n >= 2:
                     ctx.nontrivial_case({"n": n, "m": m, "c": cls})
             if n >= 2:
